@@ -654,6 +654,11 @@ class _ExecutorManagerThread(threading.Thread):
             if self.is_shutting_down():
                 self.flag_executor_shutting_down()
 
+                # When only cancelled futures remain in pending_work_items, the
+                # next call to wait_result_broken_or_wakeup would hang forever.
+                # This makes sure we have some running futures or none at all.
+                self.add_call_item_to_queue()
+
                 # Since no new work items can be added, it is safe to shutdown
                 # this thread if there are no pending work items.
                 if not self.pending_work_items:
@@ -888,6 +893,14 @@ class _ExecutorManagerThread(threading.Thread):
                     # The future was cancelled but not yet dequeued.
                     pass
                 del work_item
+
+            # Drain work_ids_queue since we no longer need to add items to the
+            # call queue.
+            while True:
+                try:
+                    self.work_ids_queue.get_nowait()
+                except queue.Empty:
+                    break
 
             # Kill the remaining worker forcibly to no waste time joining them
             self.kill_workers(reason="executor shutting down")
